@@ -254,6 +254,14 @@ theorem lstsq_recovers (V : Finset ι) (M : κ → ι → F) (d : ι → F) (c :
     (hindep : ∀ v : κ → F, (∀ i ∈ V, ∑ k, v k * M k i = 0) → v = 0) :
     lsqCost V M d c = 0 ∧ ∀ w, lsqCost V M d w ≤ lsqCost V M d c → w = c := C10L.lstsq_recovers V M d c hsyn hindep
 
+/-- **bridge to the executed oracle**: whatever satisfies the normal equations `Aᵀ(A w - d) = 0` on the valid samples minimises
+the masked cost.  The driver's exact rational solver `lstsqNormal` is not proved correct; instead every vector it returns is
+re-checked, exactly, against the normal equations (`Model.C10.normalResidual`, reported per request), and prysm's `lstsq` is
+compared with that vector. -/
+theorem normal_equations_minimise (V : Finset ι) (M : κ → ι → F) (d : ι → F) (w : κ → F)
+    (hN : ∀ k, ∑ i ∈ V, M k i * (∑ j, w j * M j i - d i) = 0) (v : κ → F) :
+    lsqCost V M d w ≤ lsqCost V M d v := C10L.normal_eq_minimises V M d w hN v
+
 /-- samples outside the valid set (and whatever the modes are there) cannot influence the fit -/
 theorem lstsq_ignores_invalid (V : Finset ι) (M M' : κ → ι → F) (d d' : ι → F)
     (hM : ∀ k, ∀ i ∈ V, M k i = M' k i) (hd : ∀ i ∈ V, d i = d' i) (w : κ → F) :
